@@ -39,6 +39,8 @@ type Work struct {
 	Clients [][]Op         `json:"clients"`
 	Rooted  bool           `json:"rooted"`  // S has no parent
 	Child   bool           `json:"child"`   // client 0 owns a private child K of S
+	KMod    bool           `json:"kmod,omitempty"` // K is a module of S (bound as "k" in S): paths lead from S into K while K's operations walk up into S
+	UY      bool           `json:"uy,omitempty"`   // releasing a lock is a scheduling point as well
 	SInit   map[string]int `json:"s_init"`  // initial values of S
 	STypes  map[string]int `json:"s_types"` // initial types of S
 }
@@ -78,13 +80,16 @@ func init() { harness.Register(Prop{}) }
 func (Prop) ID() string { return "C13" }
 
 var allKinds = []string{"Define", "DefineDot", "Set", "Get", "Delete", "DeleteGlobal", "DefineType", "Type",
-	"ValueSymbols", "TypeSymbols", "Copy", "DeepCopy", "String", "Addr", "NewModule", "EnvFromPath", "DefineGlobal"}
+	"ValueSymbols", "TypeSymbols", "Copy", "DeepCopy", "String", "Addr", "NewModule", "EnvFromPath", "DefineGlobal", "EnvFromPath2"}
 
 func (Prop) Gen(seed int64, tier string) *harness.Case {
 	r := harness.Rand(seed)
 	w := Work{Rooted: r.Intn(4) == 0, Child: r.Intn(2) == 0, SInit: map[string]int{}, STypes: map[string]int{}}
+	w.KMod = w.Child && r.Intn(2) == 0
+	w.UY = r.Intn(2) == 0
 	nClients := 2 + r.Intn(2)
 	maxOps := 2 + r.Intn(4)
+	readMostly := r.Intn(8) == 0
 	if tier == "thorough" && r.Intn(2) == 0 {
 		// deeper bounds in the thorough tier: up to 4 clients x 8 operations (histories stay <= 33 operations)
 		nClients = 2 + r.Intn(3)
@@ -164,6 +169,8 @@ func (Prop) Gen(seed int64, tier string) *harness.Case {
 				if k == "NewModule" {
 					op.Via = ""
 				}
+			case "EnvFromPath2":
+				op.Name = "k"
 			default:
 				op.Via = ""
 			}
@@ -172,11 +179,33 @@ func (Prop) Gen(seed int64, tier string) *harness.Case {
 		total += n
 		w.Clients = append(w.Clients, ops)
 	}
+	if readMostly {
+		// long stretches of lookups around one writer that defines and reads back: what a read-mostly
+		// fast path (snapshots, caches published after n lookups) has to survive
+		w.Clients, total = nil, 0
+		name := valNames[0]
+		var wr []Op
+		for i := 0; i < 2+r.Intn(3); i++ {
+			wr = append(wr, Op{Kind: "Define", Name: name, Val: 1000 + i}, Op{Kind: "Get", Name: name})
+		}
+		w.Clients = append(w.Clients, wr)
+		for c := 1; c < nClients; c++ {
+			var rd []Op
+			for i := 0; i < 8+r.Intn(8); i++ {
+				rd = append(rd, Op{Kind: "Get", Name: []string{name, name, "p0", "zz"}[r.Intn(4)], Val: 1000*(c+1) + i})
+			}
+			w.Clients = append(w.Clients, rd)
+		}
+		for _, ops := range w.Clients {
+			total += len(ops)
+		}
+		w.UY = true
+	}
 	wb, _ := json.Marshal(w)
 	density := []int{5, 15, 30, 50, 70}[r.Intn(5)]
 	c := &harness.Case{Prop: "C13", Seed: seed, Tier: tier, Workload: wb,
 		Knobs:   map[string]int{"clients": nClients, "density": density, "ops": total},
-		Choices: harness.GenChoices(r, total*10+20, density)}
+		Choices: harness.GenChoices(r, total*24+40, density)}
 	return c
 }
 
@@ -296,6 +325,9 @@ func apply(st state, op Op, rooted bool) (state, Out) {
 		if v, ok := st.vals[op.Name]; ok && v < 0 {
 			return st, Out{Val: v}
 		}
+		return st, Out{Err: "undef"}
+	case "EnvFromPath2":
+		// ["k", "m"]: K (when it is a module) never holds anything itself
 		return st, Out{Err: "undef"}
 	}
 	return st, Out{Err: "unknown-op"}
@@ -467,6 +499,12 @@ func (r *runner) exec(rc *rec) {
 		if err == nil {
 			rc.raw = m
 		}
+	case "EnvFromPath2":
+		m, err := e.GetEnvFromPath([]string{op.Name, "m"})
+		rc.out.Err = errClass(err)
+		if err == nil {
+			rc.raw = m
+		}
 	}
 }
 
@@ -559,7 +597,8 @@ func (p Prop) Run(t *testing.T, c *harness.Case, verbose bool) *harness.Result {
 	var sim *simrt.Sim
 	var final *rec
 	leaked := harness.Bubble(t, func() {
-		sim = simrt.New(c.Choices, total*14+60)
+		sim = simrt.New(c.Choices, total*60+300) // generous: a deadlock is detected as such, the budget only ends a livelock
+		sim.UnlockYields = w.UY
 		r.build()
 		r.recs = make([][]*rec, len(w.Clients))
 		for ci, ops := range w.Clients {
@@ -647,7 +686,7 @@ func (p Prop) Run(t *testing.T, c *harness.Case, verbose bool) *harness.Result {
 		hist = append(hist, fmt.Sprintf("c%d [%d,%d] %+v -> %+v", rc.client, rc.call, rc.ret, rc.op, rc.out))
 	}
 	m := model
-	init := encode(state{w.SInit, w.STypes})
+	init := encode(initState(&w))
 	m.Init = func() interface{} { return init }
 	m.Step = func(s, in, out interface{}) (bool, interface{}) {
 		st := decode(s.(string))
@@ -708,9 +747,26 @@ func (r *runner) build() {
 	for _, k := range sortedKeys(w.STypes) {
 		r.S.DefineReflectType(k, typePool[w.STypes[k]])
 	}
-	if w.Child {
+	if w.Child && w.KMod {
+		r.K, _ = r.S.NewModule(kModName)
+		r.modIDs[r.K] = kModID
+	} else if w.Child {
 		r.K = r.S.NewEnv()
 	}
+}
+
+const kModName, kModID = "k", -7
+
+// initState is the model's view of S before the clients start.
+func initState(w *Work) state {
+	vals := map[string]int{}
+	for k, v := range w.SInit {
+		vals[k] = v
+	}
+	if w.Child && w.KMod {
+		vals[kModName] = kModID
+	}
+	return state{vals, w.STypes}
 }
 
 // RunReal runs the workload of c on real goroutines with no scheduler: the
@@ -792,6 +848,16 @@ func (Prop) Shrink(c *harness.Case) []*harness.Case {
 	if w.Child {
 		nw := w
 		nw.Child = false
+		emit(nw)
+	}
+	if w.KMod {
+		nw := w
+		nw.KMod = false
+		emit(nw)
+	}
+	if w.UY {
+		nw := w
+		nw.UY = false
 		emit(nw)
 	}
 	if len(w.SInit) > 0 {
